@@ -121,10 +121,84 @@ def run_catalog(pid: str, mutants: list[Mutant], seed: int = 0, jobs: int | None
     return results
 
 
+class Renamer(ast.NodeTransformer):
+    def __init__(self, names: set[str]):
+        self.names = names
+
+    def visit_Name(self, node: ast.Name):
+        if node.id in self.names:
+            return ast.copy_location(ast.Name(id=node.id + "_r", ctx=node.ctx), node)
+        return node
+
+    def visit_ExceptHandler(self, node):
+        self.generic_visit(node)
+        if node.name in self.names:
+            node.name = node.name + "_r"
+        return node
+
+
+def rename_locals(src: str) -> str:
+    tree = ast.parse(src)
+    nested = {id(inner) for outer in ast.walk(tree) if isinstance(outer, (ast.FunctionDef, ast.AsyncFunctionDef))
+              for inner in ast.walk(outer) if inner is not outer and isinstance(inner, (ast.FunctionDef, ast.AsyncFunctionDef))}
+    for fn in [n for n in ast.walk(tree) if isinstance(n, (ast.FunctionDef, ast.AsyncFunctionDef)) and id(n) not in nested]:
+        # only top-level functions / methods: nested ones are renamed with their parent
+        params = set()
+        declared = set()
+        for n in ast.walk(fn):
+            if isinstance(n, (ast.FunctionDef, ast.AsyncFunctionDef, ast.Lambda)):
+                a = n.args
+                params |= {x.arg for x in [*a.posonlyargs, *a.args, *a.kwonlyargs]}
+                if a.vararg:
+                    params.add(a.vararg.arg)
+                if a.kwarg:
+                    params.add(a.kwarg.arg)
+                if not isinstance(n, ast.Lambda) and n is not fn:
+                    declared.add(n.name)
+            if isinstance(n, (ast.Global, ast.Nonlocal)):
+                declared |= set(n.names)
+            if isinstance(n, (ast.Import, ast.ImportFrom)):
+                declared |= {(al.asname or al.name).split(".")[0] for al in n.names}
+            if isinstance(n, ast.ClassDef):
+                declared.add(n.name)
+        stores = {n.id for n in ast.walk(fn) if isinstance(n, ast.Name) and isinstance(n.ctx, ast.Store)}
+        names = stores - params - declared
+        if names:
+            Renamer(names).visit(fn)
+    return ast.unparse(tree)
+
+
+def neutral_variants(sources: dict[str, str]) -> dict[str, dict[str, str]]:
+    """Whole-repository behaviour-preserving rewrites: ast round trip (layout, comments, line
+    numbers change) and alpha-renaming of every local variable."""
+    return {
+        "roundtrip": {k: ast.unparse(ast.parse(v)) for k, v in sources.items()},
+        "rename": {k: rename_locals(v) for k, v in sources.items()},
+    }
+
+
+def neutral_sweep(ctx) -> None:
+    """The verdicts of the check must not depend on layout or on the names of locals."""
+    from .cli import run_property
+
+    sources = read_sources(REPO)
+    base_tree = Tree(sources, root="<base>")
+    bcode, bctx = run_property(ctx.pid, "quick", 0, base_tree, quiet=True, write=False)
+    base = (bcode, len(bctx.obligations()), sorted((i.rule, i.verdict) for i in bctx.obligations()))
+    for name, variant in neutral_variants(sources).items():
+        code, vctx = run_property(ctx.pid, "quick", 0, Tree(variant, root=f"<{name}>"), quiet=True, write=False)
+        got = (code, len(vctx.obligations()), sorted((i.rule, i.verdict) for i in vctx.obligations()))
+        if got != base:
+            raise AnalysisError(f"checker self-test failed: verdicts change under the behaviour-preserving rewrite `{name}`: exit {got[0]} / {got[1]} instances (base exit {base[0]} / {base[1]})")
+        ctx.ok("M-NEUTRAL", "whole-repository rewrite of the current tree", f"`{name}` rewrite of all {len(variant)} modules: same exit code, same {got[1]} rule instances and verdicts")
+
+
 def thorough(ctx, tree, catalog: list[Mutant]) -> None:
     """Run the catalogue as part of the thorough tier and record the outcome."""
     if tree.root != str(REPO):
         return  # never recurse from inside a mutant run
+    neutral_sweep(ctx)
+    run_seeded_in_memory(ctx)
     results = run_catalog(ctx.pid, catalog, seed=ctx.seed)
     summary = {"killed": 0, "silent": 0, "skipped": 0, "detected-as-analysis-error": 0, "SURVIVED": 0, "FALSE-ALARM": 0}
     for r in results:
@@ -143,3 +217,121 @@ def thorough(ctx, tree, catalog: list[Mutant]) -> None:
         raise AnalysisError(
             "checker self-test failed: " + "; ".join(f"{r['name']}: {r['verdict']} {r.get('new_violations', [])[:1]}" for r in bad)
         )
+
+
+# ---------------------------------------------------------------- seeded changes (patch files)
+def apply_unified_diff(sources: dict[str, str], diff: str) -> dict[str, str] | None:
+    """Apply a `git diff` to the in-memory sources (exact context match; None if a hunk does not
+    apply, e.g. because the function was edited since the change was recorded)."""
+    import re
+
+    out = dict(sources)
+    cur = None
+    hunks: list[tuple[str, int, list[str], list[str]]] = []
+    old: list[str] = []
+    new: list[str] = []
+    start = 0
+
+    def flush():
+        nonlocal old, new
+        if cur is not None and (old or new):
+            hunks.append((cur, start, old, new))
+        old, new = [], []
+
+    for line in diff.splitlines():
+        if line.startswith("diff --git"):
+            flush()
+            cur = None
+        elif line.startswith("+++ "):
+            path = line[4:].strip()
+            cur = path[2:] if path.startswith("b/") else path
+        elif line.startswith("--- ") or line.startswith("index ") or line.startswith("new file") or line.startswith("deleted file"):
+            continue
+        elif line.startswith("@@"):
+            flush()
+            m = re.match(r"@@ -(\d+)", line)
+            start = int(m.group(1)) if m else 0
+        elif cur is not None:
+            if line.startswith("+"):
+                new.append(line[1:])
+            elif line.startswith("-"):
+                old.append(line[1:])
+            elif line.startswith(" ") or line == "":
+                old.append(line[1:])
+                new.append(line[1:])
+            elif line.startswith("\\"):
+                continue
+    flush()
+    offset: dict[str, int] = {}
+    for path, start, old, new in hunks:
+        if path not in out:
+            if path.startswith("src/") and path.endswith(".py") and not old:
+                out[path] = "\n".join(new) + "\n"
+                continue
+            if not path.startswith("src/"):
+                continue  # tests / docs are not part of the analysed tree
+            return None
+        lines = out[path].split("\n")
+        n = len(old)
+        cands = [i for i in range(len(lines) - n + 1) if lines[i : i + n] == old]
+        if not cands:
+            return None
+        want = start - 1 + offset.get(path, 0)
+        i = min(cands, key=lambda c: abs(c - want))
+        lines[i : i + n] = new
+        offset[path] = offset.get(path, 0) + len(new) - n
+        out[path] = "\n".join(lines)
+    return out
+
+
+def seeded_changes(pid: str) -> list[dict]:
+    import json
+    from pathlib import Path
+
+    root = Path(__file__).resolve().parent.parent / "seeded"
+    out = []
+    if not root.is_dir():
+        return out
+    for d in sorted(root.iterdir()):
+        meta_p, patch_p = d / "meta.json", d / "patch.diff"
+        if not (meta_p.exists() and patch_p.exists()):
+            continue
+        meta = json.loads(meta_p.read_text())
+        if meta.get("property") == pid or pid in meta.get("also_caught_by", {}):
+            out.append({"name": d.name, "meta": meta, "diff": patch_p.read_text()})
+    return out
+
+
+def run_seeded_in_memory(ctx) -> None:
+    """Thorough tier: every recorded seeded change of this property (a realistic change made by an
+    independent agent, see /verif/seeded/<name>/) is applied to the current tree in memory; the
+    check must react as recorded in meta.json (`expected`: violation | analysis-error | missed)."""
+    from .cli import run_property
+
+    sources = read_sources(REPO)
+    base_keys, base_code = base_violation_keys(ctx.pid, sources)
+    bad = []
+    for sc in seeded_changes(ctx.pid):
+        meta = sc["meta"]
+        expected = meta.get("expected", {}).get(ctx.pid) if isinstance(meta.get("expected"), dict) else meta.get("expected")
+        if expected is None:
+            continue
+        patched = apply_unified_diff(sources, sc["diff"])
+        if patched is None:
+            ctx.info("M-SEEDED", f"seeded/{sc['name']}", f"seeded change `{sc['name']}` no longer applies to the current tree (skipped)")
+            continue
+        try:
+            tree = Tree(patched, root=f"<seeded {sc['name']}>")
+        except SyntaxError as exc:
+            bad.append(f"{sc['name']}: patched tree does not parse ({exc})")
+            continue
+        code, vctx = run_property(ctx.pid, "quick", 0, tree, quiet=True, write=False)
+        new = [(i.rule, i.key) for i in vctx.instances if i.verdict == "violation" and (i.rule, i.key) not in base_keys]
+        got = "violation" if new else "analysis-error" if code == 2 else "missed"
+        what = f"seeded change `{sc['name']}` ({meta.get('title', '')[:80]}): expected {expected}, got {got}" + (f" [{', '.join(sorted({r for r, _ in new}))}]" if new else "")
+        if got == expected or (expected == "analysis-error" and got == "violation"):
+            ctx.ok("M-SEEDED", f"seeded/{sc['name']}/patch.diff", what)
+        else:
+            bad.append(what)
+    if bad:
+        raise AnalysisError("checker self-test failed on recorded seeded changes: " + "; ".join(bad))
